@@ -37,3 +37,50 @@ func VerifC05Sequence() {
 		v.Assert(symir.AllResolve(out), "C05: dangling reference after a sequence of two name-changing transformations")
 	}
 }
+
+// VerifC05AfterUnionToStruct: the structs DisjunctionToType creates keep the original union under a hint
+// (branches, discriminator, mapping). A name-changing transformation applied afterwards (prefix, rename,
+// duplicate) must keep the hint's branch references and mapping targets resolving, like any other reference.
+func VerifC05AfterUnionToStruct() {
+	p := ast.NewSchema("p", ast.SchemaMeta{})
+	u := ast.NewDisjunction(ast.Types{ast.NewRef("p", "Circle"), ast.NewRef("p", "Square")})
+	if v.Bool("explicitmapping") {
+		u.Disjunction.Discriminator = "type"
+		u.Disjunction.DiscriminatorMapping = map[string]string{"circle": "Circle", "square": "Square"}
+	}
+	switch v.Choose(3) {
+	case 0:
+		p.AddObject(ast.NewObject("p", "Canvas", ast.NewStruct(ast.NewStructField("shape", u, ast.Required()))))
+	case 1:
+		p.AddObject(ast.NewObject("p", "Canvas", ast.NewStruct(ast.NewStructField("shapes", ast.NewArray(u)))))
+	default:
+		p.AddObject(ast.NewObject("p", "Canvas", u))
+	}
+	p.AddObject(ast.NewObject("p", "Circle", ast.NewStruct(ast.NewStructField("type", ast.NewScalar(ast.KindString, ast.Value("circle")), ast.Required()))))
+	p.AddObject(ast.NewObject("p", "Square", ast.NewStruct(ast.NewStructField("type", ast.NewScalar(ast.KindString, ast.Value("square")), ast.Required()))))
+	var second Pass
+	switch v.Choose(3) {
+	case 0:
+		second = &PrefixObjectNames{Prefix: "Pre"}
+	case 1:
+		renamed := v.Str("renamed", "Circle", "Canvas", "CircleOrSquare")
+		v.Excuse("rename-object-named-by-a-mapping", renamed == "Circle")
+		second = &RenameObject{From: ObjectReference{Package: "p", Object: renamed}, To: "Renamed"}
+	default:
+		second = &DuplicateObject{Object: ObjectReference{Package: "p", Object: v.Str("duplicated", "Canvas", "CircleOrSquare")}, As: ObjectReference{Package: "p", Object: "Copy"}}
+	}
+	in := ast.Schemas{p}
+	mid, err := Passes{&DisjunctionInferMapping{}, &DisjunctionToType{}}.Process(in)
+	if err != nil {
+		v.Reach("union-to-struct returned an error")
+		return
+	}
+	v.Assume(symir.AllResolve(mid))
+	v.Observe(mid)
+	out, err := Passes{second}.Process(mid)
+	v.Assert(err == nil, "C05: a name-changing transformation after union-to-struct returned an error")
+	if err == nil {
+		v.Observe(out)
+		v.Assert(symir.AllResolve(out), "C05: dangling reference (or mapping target) after union-to-struct followed by a name-changing transformation")
+	}
+}
